@@ -469,7 +469,7 @@ func (g *c03gen) untyped(d int) string {
 		for i := range args {
 			args[i] = sub()
 		}
-		return fmt.Sprintf("%s(%s)", g.pick("Fi", "Fs", "Ff", "Fv", "Fa", "Fb", "Mi", "Ms", "Mp", "Nope", "I", "Any"), strings.Join(args, ", "))
+		return fmt.Sprintf("%s(%s)", g.pick("Fi", "Fs", "Ff", "Fv", "Fa", "Fb", "Mi", "Ms", "Mp", "Nope", "I", "Any", "Fx", "Fy", "Fn", "F2", "Mx"), strings.Join(args, ", "))
 	case 8:
 		n := g.rng.Intn(2)
 		args := make([]string, n)
@@ -697,7 +697,9 @@ func runC03(c *Ctx) {
 		src string
 		ex  int
 	}{{"nil", 1}, {"Fs(1)", 0}, {"filter(Ints, {# > 1})", 0}, {"map(Ints, {# + 1})", 0}, {"MSI[1]", 0}, {"Ints[\"a\"]", 0},
-		{"My == 1", 0}, {"map(Ints, {nil})", 0}, {"Ff(+U64)", 0}, {"Fi(F64 + 1)", 0}, {"Arr[:]", 0}, {"len(Arr[1:2])", 0}, {"{(1): 2}", 0}, {"MSI[:]", 0}, {"F32 in MII", 0}, {"Any?.x", 1}, {"1 + 2", 2}, {"I8 + 1", 2}, {"F32 * 2", 3}, {"I", 3}, {"Str", 2}, {"B", 1}, {"I", 1}} {
+		{"My == 1", 0}, {"map(Ints, {nil})", 0}, {"Ff(+U64)", 0}, {"Fi(F64 + 1)", 0}, {"Arr[:]", 0}, {"len(Arr[1:2])", 0}, {"{(1): 2}", 0}, {"MSI[:]", 0}, {"F32 in MII", 0}, {"Any?.x", 1}, {"1 + 2", 2}, {"I8 + 1", 2}, {"F32 * 2", 3}, {"I", 3}, {"Str", 2}, {"B", 1}, {"I", 1},
+		{"Fx(1, \"a\")", 0}, {"Fx()", 0}, {"Fy(1)", 0}, {"Mx(1, 2)", 0}, {"Mx()", 0}, {"Fn()", 0}, {"F2()", 0}, {"Fx(Nope)", 0},
+		{"St?.Nope()", 0}, {"St.Nope()", 0}, {"PSt?.Nope(1)", 0}, {"Any?.Nope()", 0}, {"St?.Nope", 0}, {"Nope?.x", 0}, {"Sts[0]?.Nope(Nope)", 0}} {
 		cases = append(cases, c03Case{env: envs[0], src: s.src, expect: s.ex, static: false, goal: nil})
 	}
 
